@@ -492,9 +492,9 @@ func init() {
 		},
 		Thorough: func() []eng.Instance {
 			// Map-level get-or-create racers: the lock-free snapshot loop of Map.Load makes these the largest formulas
-			// (Map LoadOrStore||LoadOrStore does not finish within 400 s per query: the lock-free snapshot loop of
-			// Map.Load on both sides; the MapOf twin and Map LoadOrCompute||LoadOrCompute are the instances that ran clean)
-			is := mapPar2("C05/Map/race", "VxH_Map_par2", [][2]int{{4, 4}, {5, 5}, {3, 3}}, []int64{1, 1, 1, 11}, 2)
+			// (Map-level LoadOrStore / LoadOrCompute racers do not finish reliably within the per-query limit: the lock-free
+			// snapshot loop of Map.Load on both sides; their MapOf twins and the cache-level racers are the instances that ran clean)
+			is := mapPar2("C05/Map/race", "VxH_Map_par2", [][2]int{{5, 5}, {3, 3}}, []int64{1, 1, 1, 11}, 2)
 			is = append(is, mapPar2("C05/MapOf/race", "VxH_MapOf_par2", [][2]int{{2, 2}, {4, 4}, {5, 5}, {3, 3}}, []int64{1, 1, 1, 11, 2}, 2)...)
 			is = append(is, withOf(cachePar2R("C05/Cache/race", [][2]string{{"GetOrCompute", "GetOrCompute"}, {"GetOrSet", "GetOrSet"}, {"Compute", "Compute"}, {"GetAndSet", "GetAndRefresh"}, {"GetOrCompute", "Set"}, {"GetAndRefresh", "GetAndRefresh"}}, 1, 3))...)
 			return is
